@@ -3,9 +3,11 @@ package c04
 import (
 	"context"
 	"fmt"
+	"os"
 	"sort"
 	"sync"
 	"testing"
+	"time"
 
 	"github.com/olive-io/bpmn/schema"
 	bpmn "github.com/olive-io/bpmn/v2"
@@ -14,6 +16,7 @@ import (
 
 	"verif/harness/drive"
 	"verif/harness/gen"
+	"verif/harness/quiesce"
 	"verif/harness/rec"
 )
 
@@ -210,6 +213,13 @@ func runCase(d descriptor) *result {
 	sort.Strings(want)
 	r.Steps = append(r.Steps, drive.Step{Stimulus: "start", Expected: want, Got: ids(ups)})
 	if !eq(ids(ups), want) {
+		if os.Getenv("VERIF_DEBUG") != "" {
+			snap := quiesce.Dump(in.Tr.Mine())
+			all := quiesce.Dump(quiesce.All())
+			time.Sleep(100 * time.Millisecond)
+			later := in.NewTasks()
+			fmt.Printf("DEBUG later tasks %v\nMINE:\n%s\nALL:\n%s\n", ids(later), snap, all)
+		}
 		return fail("upstream", fmt.Sprintf("upstream requests %v want %v", ids(ups), want))
 	}
 	// arrival of the tokens
@@ -242,6 +252,13 @@ func runCase(d descriptor) *result {
 	}
 	r.Steps = append(r.Steps, drive.Step{Stimulus: "answer upstream", Expected: exp, Got: ids(got)})
 	if !eq(ids(got), exp) {
+		if os.Getenv("VERIF_DEBUG") != "" {
+			snap := quiesce.Dump(in.Tr.Mine())
+			all := quiesce.Dump(quiesce.All())
+			time.Sleep(100 * time.Millisecond)
+			later := in.NewTasks()
+			fmt.Printf("DEBUG later tasks %v\nMINE:\n%s\nALL:\n%s\n", ids(later), snap, all)
+		}
 		return fail("routing", fmt.Sprintf("after %d token(s) arrived: downstream requests %v, want %v", d.Tokens, ids(got), exp))
 	}
 	for _, tt := range got {
